@@ -62,7 +62,7 @@ Do(R) ==
   \/ R.e = "splist"  /\ ListPersSavepoints(R.r)
   \/ R.e = "spreste" /\ RestoreEph(R.s, R.r)
   \/ R.e = "sprestp" /\ RestorePers(R.id, R.r)
-  \/ R.e = "compact" /\ Compact(R.r)
+  \/ R.e = "compact" /\ Compact(R.r, R)
   \/ R.e = "integrity" /\ CheckIntegrity(R.r, R.stale, R)
   \/ R.e = "reopen"  /\ Reopen(R.obs)
   \/ R.e = "crash"   /\ Crash(R.obs)
